@@ -85,6 +85,12 @@ def gen_case(rng, i):
     for j in order:
         ops.append(f"flood {j} {rng.randint(1, 10**6)} {rng.choice([1, 2])}")
     ops += [f"audit {j}" for j in range(NCLIENTS)]
+    # the flood re-offered every invitation under fresh wrapper ids: an evicted client now tries its old invitation once
+    # more, reading the welcome back from the store (if the replay made it pending again, the accept brings the group's
+    # join-epoch state back), and is then offered everything again
+    for j in sorted(removed):
+        if j in joined and rng.random() < 0.7:
+            ops += [f"accept {j} {w_of[j]}", f"flood {j} {rng.randint(1, 10**6)} 1", f"audit {j}"]
     for j in sorted(removed):
         ops.append(f"send {j} 0")
     return {"id": f"know-{i}", "ops": ops}
